@@ -44,6 +44,7 @@ type kase struct {
 	Senders []string        `json:"senders"`
 	Ops     [][]interface{} `json:"ops"`
 	OStress *ostress        `json:"ostress"`
+	Slow    float64         `json:"slow"` // re-check runs: every time-out and settling delay multiplied by this factor
 }
 
 type opRes struct {
@@ -55,6 +56,7 @@ type opRes struct {
 type ostress struct {
 	Sections int   `json:"sections"`
 	Seed     int64 `json:"seed"`
+	MaxLen   int   `json:"maxlen"` // values per section: 3..maxlen (default 8)
 	Raw      bool  `json:"raw"` // the consumer is plain Go code polling the channel (as a client of an OutputChan is), not an InputChan
 }
 
@@ -67,7 +69,7 @@ type result struct {
 	Err          string  `json:"err"`
 }
 
-const hangDur = 3 * time.Second
+var hangDur = 3 * time.Second
 
 func ms(x float64) time.Duration { return time.Duration(x * float64(time.Millisecond)) }
 
@@ -170,7 +172,11 @@ func runOStress(k kase) (out result) {
 	var plan [][]int
 	for s := 0; s < k.OStress.Sections; s++ {
 		var sec []int
-		for j := 0; j < 3+rng.Intn(6); j++ {
+		span := 6
+		if k.OStress.MaxLen > 3 {
+			span = k.OStress.MaxLen - 2
+		}
+		for j := 0; j < 3+rng.Intn(span); j++ {
 			sec = append(sec, n)
 			n++
 		}
@@ -276,6 +282,14 @@ func runOStress(k kase) (out result) {
 }
 
 func runCase(k kase) (out result) {
+	if k.Slow > 1 {
+		k.ReadMs *= k.Slow
+		k.WriteMs *= k.Slow
+		k.DialMs *= k.Slow
+	} else {
+		k.Slow = 1
+	}
+	hangDur = time.Duration(3*k.Slow) * time.Second
 	if k.OStress != nil {
 		return runOStress(k)
 	}
@@ -365,6 +379,7 @@ func runCase(k kase) (out result) {
 	}()
 	hung := false
 	lenDirty := false
+	waitqMissed := false
 	for _, op := range k.Ops {
 		if hung {
 			out.Res = append(out.Res, opRes{St: "skip"})
@@ -585,7 +600,13 @@ func runCase(k kase) (out result) {
 			})
 		case "waitq": // wait until the receive queue holds n records (hand-over from the handlers is asynchronous)
 			want := int(op[1].(float64))
-			deadline := time.Now().Add(2 * time.Second)
+			// generous: settling must never decide anything by itself. Once the script's expectation has been missed
+			// (the implementation legitimately took a time-out the script's author did not foresee) later waits are short.
+			wd := 10 * time.Second
+			if waitqMissed {
+				wd = time.Duration(150*k.Slow) * time.Millisecond
+			}
+			deadline := time.Now().Add(wd)
 			r = opRes{St: "timeout"}
 			for time.Now().Before(deadline) {
 				var n int
@@ -601,10 +622,13 @@ func runCase(k kase) (out result) {
 				r.V = n
 				time.Sleep(200 * time.Microsecond)
 			}
+			if r.St != "ok" {
+				waitqMissed = true
+			}
 		case "quiesce":
 			// handlers that are about to block in `msgChannel <- batch` offer no condition to wait on
 			// (len(msgChannel) is already at its capacity): give them a moment to get there
-			time.Sleep(3 * time.Millisecond)
+			time.Sleep(time.Duration(3*k.Slow) * time.Millisecond)
 			r = opRes{St: "ok"}
 		default:
 			r = opRes{St: "err:bad op"}
